@@ -1383,8 +1383,24 @@ fn fn_edits(
 				.collect();
 			hits.sort();
 			if hits.len() < nth {
-				if p.optional { continue; }
-				die(&format!("{}: anchor statement `{}` #{} not found", name, pref, nth));
+				// relaxed match: the statement may have been edited (an operator, an argument): shorten the prefix token by
+				// token (not below two tokens / 10 characters) until exactly `nth` candidates exist
+				let toks: Vec<&str> = want.split(' ').collect();
+				let mut k = toks.len();
+				while hits.len() < nth && k > 2 {
+					k -= 1;
+					let w = toks[..k].join(" ");
+					if w.len() < 10 { break; }
+					let mut h2: Vec<(usize, usize)> = v.stmts.iter().filter(|(s, e)| oneline(&src[*s..*e]).starts_with(&w)).cloned().collect();
+					h2.sort();
+					if h2.len() == nth { hits = h2; eprintln!("vx: note: anchor `{}` matched by its prefix `{}`", pref, w); }
+				}
+			}
+			if hits.len() < nth {
+				// the anchored statement is gone: the obligations stand without this hint (recorded; never fatal)
+				eprintln!("vx: note: hint anchor `{}` #{} lost in {}", pref, nth, name);
+				*v.rules.entry("hint-anchor-lost".to_string()).or_insert(0) += 1;
+				continue;
 			}
 			let (s, e) = hits[nth - 1];
 			match p.pos.as_str() {
@@ -1403,7 +1419,7 @@ fn fn_edits(
 					"body_end" => b.2,
 					x => die(&format!("bad pos {}", x)),
 				},
-				_ => { if p.optional { continue; } die(&format!("{}: anchor loop {} not found", name, lo)) }
+				_ => { eprintln!("vx: note: hint anchor loop {} lost in {}", lo, name); *v.rules.entry("hint-anchor-lost".to_string()).or_insert(0) += 1; continue; }
 			}
 		} else {
 			match p.pos.as_str() {
@@ -1426,14 +1442,15 @@ fn fn_edits(
 	}
 	// check every configured loop / closure ordinal exists
 	for l in cfg.loops.iter().filter(|_| stub.is_none()) {
-		if (l.ordinal == 0 || l.ordinal > v.loop_ord) && l.optional { continue; }
 		if l.ordinal == 0 || l.ordinal > v.loop_ord {
-			die(&format!("{}: loop ordinal {} not found (fn has {})", name, l.ordinal, v.loop_ord));
+			eprintln!("vx: note: loop {} of the sidecar no longer exists in {} (fn has {})", l.ordinal, name, v.loop_ord);
+			*v.rules.entry("hint-anchor-lost".to_string()).or_insert(0) += 1;
 		}
 	}
 	for c in cfg.closures.iter().filter(|_| stub.is_none()) {
 		if c.ordinal == 0 || c.ordinal > v.closure_ord {
-			die(&format!("{}: closure ordinal {} not found (fn has {})", name, c.ordinal, v.closure_ord));
+			eprintln!("vx: note: closure {} of the sidecar no longer exists in {} (fn has {})", c.ordinal, name, v.closure_ord);
+			*v.rules.entry("hint-anchor-lost".to_string()).or_insert(0) += 1;
 		}
 	}
 	let mut seq = v.seq + 1;
